@@ -311,23 +311,27 @@ def c04(run, params, events):
 
 # ------------------------------------------------------------------------------------------------ C05
 def independent_first_pass_candidates(run, query):
-    """the candidates of one whole query, one per selected seed peak, built by the coordinator's own steps called one after the other from here
-    (seeding over all references and both strands -> selection of at most peaksCount seeds -> refinement and alignment of EVERY selected seed);
-    None if the steps are no longer there under these names (then the oracle does not apply)"""
-    import itertools
-    wc = run.coordinator
+    """the candidates of one whole query as the statement describes them - one per seed peak, the (at most peaksCount) highest-scoring seed peaks of the
+    query over ALL references and BOTH strands - built here from the low-level functions only (getInitialAlignment / refine / Aligner.align), i.e.
+    without the coordinator's own glue (__align, __getPrimaryCorrelations, __getSecondaryCorrelation, __getAlignmentRow, selectPeaks).
+    None when the selection is ambiguous (equal scores at the cut) or the low-level functions are not there under these names."""
+    wc, args = run.coordinator, run.args
     try:
-        prim = getattr(wc, '_WorkflowCoordinator__getPrimaryCorrelations')
-        sec = getattr(wc, '_WorkflowCoordinator__getSecondaryCorrelation')
-        arow = getattr(wc, '_WorkflowCoordinator__getAlignmentRow')
-    except AttributeError:
+        seeds = []
+        for reference in run.reference_maps:
+            for reverse in (False, True):
+                ia = query.getInitialAlignment(reference, wc.primaryGenerator, args.minPeakDistance, args.peaksCount, reverseStrand=reverse)
+                seeds += [(ia, peak) for peak in ia.peaks]
+    except (AttributeError, TypeError):
         return None
-    seeds = list(wc.peaksSelector.selectPeaks(itertools.chain.from_iterable(prim(r, query) for r in run.reference_maps)))
+    seeds.sort(key=lambda s: s[1].score, reverse=True)
+    n = max(args.peaksCount, 0)
+    if len(seeds) > n and n > 0 and seeds[n - 1][1].score == seeds[n][1].score:
+        return None
     rows = []
-    for i, sp in enumerate(seeds):
-        pc, sc = sec(sp, i)
-        row, _ = arow(pc, sc, i)
-        rows.append(row)
+    for ia, peak in seeds[:n]:
+        sc = ia.refine(peak.position, wc.secondaryGenerator, args.secondaryMargin, args.peakHeightThreshold)
+        rows.append(wc.aligner.align(sc.reference, sc.query, sc.peaks, sc.reverseStrand))
     return rows
 
 
@@ -373,7 +377,7 @@ def c05(run, mode, peaks_count):
     # ... and the candidates are ALL selected seeds: re-derived independently for a few queries of the set
     if first_pass_file is not None and first_pass_file in per_file and run.coordinator is not None:
         recs = {int(r['QryContigID']): r for r in per_file[first_pass_file]}
-        for qid in (sorted(qrys)[:2] + sorted(qrys)[-3:]):
+        for qid in (sorted(qrys) if len(qrys) <= 40 else sorted(qrys)[:2] + sorted(qrys)[-3:]):
             try:
                 rows = independent_first_pass_candidates(run, qrys[qid])
             except Exception:
